@@ -58,6 +58,15 @@ def run(chk):
     chk.call(line_reader, chk)
     chk.call(r7_suppression_rearmed, chk, rm)
     chk.call(r8_required_columns, chk)
+    # "token corruptions ... either an exception or ... the same content": a symbol token that names no element is not silently read
+    # as a dummy atom (the tabulation of C08.R2 over tokens that are neither an element nor a dummy marker)
+    from . import c08
+
+    def r9(chk_):
+        chk_._want_non_element_rule = True
+        c08.r2_records(chk_)
+
+    chk.borrow("C10.R9", r9, chk, only=lambda o: o["construct"].endswith(":non-element-symbols-reach-the-lookup"))
 
 
 # ---------------------------------------------------------------------------
